@@ -299,7 +299,7 @@ ADDENDA = {
             "technique": "translator tie for the range guard (GuardExpr evaluator = model)"},
     "C07": {"text": "the glue of Calculator / CijVolumeBaseInterface is translated as data (tools/gens/calc_src.py): assembly indices, compliance labelling, REGEX_CIJ and the __getattr__ dispatch, __init__ order, class-level state, in-place operations; assembly / labelling / name lookup models are proved to be the evaluation of that data for all key lists and names (calc_glue_is_source_*), label (i,j) is the (i,j) entry of the inverse whatever the key order, no shared state and no in-place writes hence read-order freedom on the generated read graph; Python's attribute lookup order modelled (getattrOf) and the precondition of __getattr__ discharged: no name of the REGEX_CIJ language is defined on either interface, so getattr(volume_base, name) IS the translated dispatch (calc_glue_getattr_*; hypothesis: names contributed by `object` are dunder names, checked on the real objects).",
             "technique": "translator tie for the calculator glue + order-freedom via the memo-history theorems"},
-    "C11": {"text": "pchip and akima are no longer a contract parameter: scipy's PchipInterpolator/Akima1DInterpolator slope rules and PPoly evaluation are modelled (CijModel/PPoly.lean, constants read from the installed scipy source); proved: node values, nu=1 is the derivative of nu=0 everywhere and nu=2 of nu=1 off interior nodes, C1 at nodes, PCHIP slope box and Fritsch-Carlson monotonicity, power-law exactness, (exp s, -s', -s'') consistency without contract; bit-for-bit correspondence with scipy; dispatch/constructor/extrapolate wiring of interpolate_mode_ppoly translated (ppoly_glue_is_source). every function of mode_gamma.py re-translated as statements/expression trees (tools/gens/modegamma_src.py): interpolateMode for every method and interpolateModes = interpretation of the translated code for all inputs, any exp/log pair, any kernels (mode_glue_src_*: one independent fit per mode from that mode's series only; vander in decreasing powers with order+1 columns; spline on the grid in the order given with k=order and no s/w); inventory complete; the diagnostic plot and the `cij modes` command translated (plot_select_is_source, plot_command_wiring_is_source). PARTIAL now only: FITPACK spline.",
+    "C11": {"text": "pchip and akima are no longer a contract parameter: scipy's PchipInterpolator/Akima1DInterpolator slope rules and PPoly evaluation are modelled (CijModel/PPoly.lean, constants read from the installed scipy source); proved: node values, nu=1 is the derivative of nu=0 everywhere and nu=2 of nu=1 off interior nodes, C1 at nodes, PCHIP slope box and Fritsch-Carlson monotonicity, power-law exactness, (exp s, -s', -s'') consistency without contract; bit-for-bit correspondence with scipy; dispatch/constructor/extrapolate wiring of interpolate_mode_ppoly translated (ppoly_glue_is_source). every function of mode_gamma.py re-translated as statements/expression trees (tools/gens/modegamma_src.py): interpolateMode for every method and interpolateModes = interpretation of the translated code for all inputs, any exp/log pair, any kernels (mode_glue_src_*: one independent fit per mode from that mode's series only; vander in decreasing powers with order+1 columns; spline on the grid in the order given with k=order and no s/w); inventory complete; mode/loop theorems hold for every input (no-volume ValueError and missing-frequency IndexError modelled as the code raises them), kernel-length contract proved for all modelled kernels; the diagnostic plot and the `cij modes` command translated (plot_select_is_source, plot_command_wiring_is_source). PARTIAL now only: FITPACK spline.",
             "technique": "piecewise-cubic Hermite model of scipy's pchip/akima with HasDerivAt proofs; bit-for-bit scipy correspondence"},
     "C12": {"text": "'inside the computed range' is the translated guard of qha_adapter.py: an in-range non-empty grid is never refused, an overshooting one always (c12_in_range_grid_not_refused, c12_out_of_range_grid_refused); non-shear value bodies, shear target and mode glue restated from their translations."},
     "C13": {"text": "volume-block clause PROVED on QHACalculator.read_input as re-translated every run (tools/gens/volorder_src.py: statement list, guard, exception, position; comparison operator read from the installed qha): for a file listed by strictly decreasing volume EVERY permutation of the blocks is the identity or is rejected with RuntimeError (vol_relisting_rejected_or_identical); accepted re-listings share the volume list; witness that equal-volume blocks may be exchanged (outside the quantifier, recorded); presentation clauses restated on Generated.NonShearGlue / ModeGammaSpec / Readers; full_modulus defaults/bodies, qha adapter tables and guard, non-shear bodies restated from their translations (c13_*_is_source)."},
